@@ -69,7 +69,7 @@ Lemma classify_cases st c m s :
     if has_match (s_subs s) (m_topic m) then
       match s_act s with
       | None => if full then ADrop else AEnq
-      | Some c' => if c' =? c then (if full then AErr else AEnq)
+      | Some c' => if c' =? c then (if full then (if mem_n c (st_dying st) then ASkip else AErr) else AEnq)
                    else if full then (if mem_n c' (st_dying st) then ASkip else ABlock)
                    else AEnq
       end
@@ -77,19 +77,6 @@ Lemma classify_cases st c m s :
 Proof.
   intros Hn. cbv zeta. unfold classify. rewrite <- (pick_sub_has_match _ _ Hn).
   destruct (pick_sub (s_subs s) (m_topic m)); reflexivity.
-Qed.
-
-Lemma is_err_classify st c m s :
-  name_ok (m_topic m) = true ->
-  is_err (classify st c m s) =
-  has_match (s_subs s) (m_topic m) && option_eqb N.eqb (s_act s) (Some c) && is_full (st_cap st) (queue_of m s).
-Proof.
-  intros Hn. rewrite (classify_cases st c m s Hn).
-  destruct (has_match (s_subs s) (m_topic m)); [|reflexivity].
-  destruct (s_act s) as [c'|]; cbn [option_eqb andb].
-  - destruct (c' =? c); [destruct (is_full _ _); reflexivity|].
-    destruct (is_full _ _); [destruct (mem_n c' (st_dying st))|]; reflexivity.
-  - destruct (is_full _ _); reflexivity.
 Qed.
 
 Lemma is_block_classify st c m s :
@@ -102,7 +89,7 @@ Proof.
   intros Hn. rewrite (classify_cases st c m s Hn).
   destruct (has_match (s_subs s) (m_topic m)); [|reflexivity].
   destruct (s_act s) as [c'|]; cbn [andb].
-  - destruct (c' =? c); cbn [negb andb]; [destruct (is_full _ _); reflexivity|].
+  - destruct (c' =? c); cbn [negb andb]; [destruct (is_full _ _); [destruct (mem_n c (st_dying st))|]; reflexivity|].
     destruct (is_full _ _); [destruct (mem_n c' (st_dying st))|]; cbn; rewrite ?andb_false_r; reflexivity.
   - destruct (is_full _ _); reflexivity.
 Qed.
@@ -113,17 +100,43 @@ Definition pub_err (st : state) (c : conn) (m : message) : bool :=
 Definition pub_blk (st : state) (c : conn) (m : message) : bool :=
   existsb is_block (map (fun e => classify st c m (snd e)) (st_temps st)) ||
   existsb is_block (map (fun e => classify st c m (snd e)) (st_stored st)).
+(* the call does not go through: refused by the pre-check, or waiting *)
+Definition pub_stuck (st : state) (c : conn) (m : message) : bool :=
+  own_refused st c m || (negb (pub_err st c m) && pub_blk st c m).
 
-Lemma pub_err_own_full st c m : name_ok (m_topic m) = true -> pub_err st c m = own_full st c m.
+Lemma own_refused_own_full st c m : name_ok (m_topic m) = true -> own_refused st c m = own_full st c m.
 Proof.
-  intros Hn. unfold pub_err, own_full, sessions. rewrite existsb_app, !existsb_map. cbn [snd].
-  f_equal; apply existsb_ext'; intros x _; apply is_err_classify; exact Hn.
+  intros Hn. unfold own_refused, own_full. f_equal. destruct (session_of st c) as [[k s]|]; [|reflexivity].
+  rewrite <- (pick_sub_has_match _ _ Hn). destruct (pick_sub (s_subs s) (m_topic m)); reflexivity.
 Qed.
 
 Lemma pub_blk_other_full st c m : name_ok (m_topic m) = true -> pub_blk st c m = other_full st c m.
 Proof.
   intros Hn. unfold pub_blk, other_full, sessions. rewrite existsb_app, !existsb_map. cbn [snd].
   f_equal; apply existsb_ext'; intros x _; apply is_block_classify; exact Hn.
+Qed.
+
+(* a session names a connection as active only if it is that connection's session (holds in every reachable
+   state: BackendOwn.v) *)
+Definition OwnOk (st : state) : Prop :=
+  forall k s c, get_session st k = Some s -> s_act s = Some c -> session_of st c = Some (k, s).
+
+(* hence, once the pre-check has passed, no own full queue is met during the fan-out *)
+Lemma no_midway st c m : wf st -> OwnOk st -> own_refused st c m = false -> pub_err st c m = false.
+Proof.
+  intros W O R. destruct (pub_err st c m) eqn:E; [|reflexivity]. exfalso.
+  assert (X : exists k s, In (k, s) (sessions st) /\ is_err (classify st c m s) = true).
+  { unfold pub_err in E. apply orb_true_iff in E as [E|E]; rewrite existsb_map in E; apply existsb_exists in E as [[x s] [Hin He]].
+    - exists (KTemp x), s. split; [apply in_sessions; left; exists x; auto|exact He].
+    - exists (KStored x), s. split; [apply in_sessions; right; exists x; auto|exact He]. }
+  destruct X as (k & s & Hin & He). pose proof (sessions_get st k s W Hin) as G.
+  unfold classify in He. destruct (pick_sub (s_subs s) (m_topic m)) as [x|] eqn:P; [|discriminate].
+  destruct (s_act s) as [c'|] eqn:A; [|destruct (is_full _ _); discriminate].
+  destruct (c' =? c) eqn:Ec.
+  - apply N.eqb_eq in Ec; subst c'. destruct (is_full (st_cap st) (queue_of m s)) eqn:F; [|discriminate].
+    destruct (mem_n c (st_dying st)) eqn:D; [discriminate|].
+    unfold own_refused in R. rewrite D, (O k s c G A), P, F in R. discriminate.
+  - destruct (is_full _ _); [destruct (mem_n c' (st_dying st))|]; discriminate.
 Qed.
 
 Lemma pub_err_false_session st c m k s :
@@ -163,14 +176,13 @@ Proof.
   destruct r; try reflexivity. discriminate H.
 Qed.
 
-(* the session after a Publish that was not refused *)
+(* the session after a Publish that returned nil *)
 Lemma target_deliver st c m got k s :
   name_ok (m_topic m) = true ->
-  let err := pub_err st c m in
-  (err = false -> is_err (classify st c m s) = false /\ is_block (classify st c m s) = false) ->
-  target_ok st c m (if err then RQueueFull else ROk) s (deliver err got k (classify st c m s) m s) = true.
+  is_err (classify st c m s) = false -> is_block (classify st c m s) = false ->
+  target_ok st c m ROk s (deliver false got k (classify st c m s) m s) = true.
 Proof.
-  intros Hn err Hok. unfold target_ok.
+  intros Hn He Hb. unfold target_ok.
   assert (Hframe : forall s', (s' = s \/ s' = enqueue m s) ->
      subs_eqb (s_subs s) (s_subs s') && msgs_eqb (other_queue m s) (other_queue m s') &&
      option_eqb N.eqb (s_act s) (s_act s') = true).
@@ -178,48 +190,41 @@ Proof.
     - rewrite subs_eqb_refl, msgs_eqb_refl, act_eqb_refl; reflexivity.
     - destruct (enqueue_frame m s) as (E1 & E2 & E3). rewrite E1, E2, E3.
       rewrite subs_eqb_refl, msgs_eqb_refl, act_eqb_refl; reflexivity. }
-  assert (Hd : deliver err got k (classify st c m s) m s = s \/
-               deliver err got k (classify st c m s) m s = enqueue m s).
-  { unfold deliver. destruct (classify st c m s); auto; destruct err; auto; destruct (mem_key k got); auto. }
+  assert (Hd : deliver false got k (classify st c m s) m s = s \/
+               deliver false got k (classify st c m s) m s = enqueue m s).
+  { unfold deliver. destruct (classify st c m s); auto. }
   rewrite (Hframe _ Hd). cbn [andb].
   rewrite (classify_cases st c m s Hn) in *.
   destruct (has_match (s_subs s) (m_topic m)); [|cbn [deliver]; apply kept_refl].
   set (full := is_full (st_cap st) (queue_of m s)) in *.
-  destruct err eqn:Eerr.
-  - (* ErrQueueFull: some sessions may have received the message before the call ended *)
-    destruct (s_act s) as [c'|].
-    + destruct (c' =? c).
-      * destruct full; cbn [deliver]; [rewrite kept_refl; reflexivity|].
-        destruct (mem_key k got); [rewrite enqueue_gained, orb_true_r|rewrite kept_refl]; reflexivity.
-      * destruct full; [destruct (mem_n c' (st_dying st)); cbn [deliver]; rewrite kept_refl; reflexivity|].
-        cbn [deliver]. destruct (mem_key k got); [rewrite enqueue_gained, orb_true_r|rewrite kept_refl]; reflexivity.
-    + destruct full; cbn [deliver]; [rewrite kept_refl; reflexivity|].
-      destruct (mem_key k got); [rewrite enqueue_gained, orb_true_r|rewrite kept_refl]; reflexivity.
-  - destruct (Hok eq_refl) as [He Hb].
-    destruct (s_act s) as [c'|].
-    + destruct (c' =? c).
-      * destruct full; cbn [is_err] in He; [discriminate|]. cbn [deliver]. apply enqueue_gained.
-      * destruct full.
-        -- destruct (mem_n c' (st_dying st)); cbn [deliver is_block andb] in *; [apply kept_refl|discriminate].
-        -- rewrite andb_false_r. cbn [deliver]. apply enqueue_gained.
-    + destruct full; cbn [deliver]; [apply kept_refl|apply enqueue_gained].
+  destruct (s_act s) as [c'|].
+  - destruct (c' =? c) eqn:Ec.
+    + apply N.eqb_eq in Ec; subst c'. destruct full.
+      * destruct (mem_n c (st_dying st)); cbn [is_err deliver andb] in *; [apply kept_refl|discriminate].
+      * rewrite andb_false_r. cbn [deliver]. apply enqueue_gained.
+    + destruct full.
+      * destruct (mem_n c' (st_dying st)); cbn [is_block deliver andb] in *; [apply kept_refl|discriminate].
+      * rewrite andb_false_r. cbn [deliver]. apply enqueue_gained.
+  - destruct full; cbn [deliver]; [apply kept_refl|apply enqueue_gained].
 Qed.
 
 (* ------------------------------------------------------------------ the Publish step *)
 Lemma publish_unfold st c m got :
   publish st c m got =
-  if negb (pub_err st c m) && pub_blk st c m then (RBlocked, st)
+  if pub_stuck st c m then ((if own_refused st c m then RQueueFull else RBlocked), st)
   else ((if pub_err st c m then RQueueFull else ROk),
         St (st_cap st)
            (map (fun e => (fst e, deliver (pub_err st c m) got (KStored (fst e)) (classify st c m (snd e)) m (snd e))) (st_stored st))
            (map (fun e => (fst e, deliver (pub_err st c m) got (KTemp (fst e)) (classify st c m (snd e)) m (snd e))) (st_temps st))
            (st_active st) (retain_update m (st_retained st)) (st_closing st) (st_sess st) (st_cid st)
            (st_dying st) (st_closed st) (st_term st) (st_pending st)).
-Proof. reflexivity. Qed.
+Proof.
+  unfold publish, pub_stuck. destruct (own_refused st c m); [reflexivity|]. cbn [orb]. reflexivity.
+Qed.
 
 Lemma get_session_published st c m got k :
   let st' := snd (publish st c m got) in
-  negb (pub_err st c m) && pub_blk st c m = false ->
+  pub_stuck st c m = false ->
   get_session st' k =
   option_map (fun s => deliver (pub_err st c m) got k (classify st c m s) m s) (get_session st k).
 Proof.
@@ -234,49 +239,54 @@ Qed.
 Lemma get_session_published_some st c m got k s' :
   get_session (snd (publish st c m got)) k = Some s' -> is_some (get_session st k) = true.
 Proof.
-  rewrite publish_unfold. destruct (negb (pub_err st c m) && pub_blk st c m) eqn:Hnb; cbn [snd].
+  rewrite publish_unfold. destruct (pub_stuck st c m) eqn:Hnb; cbn [snd].
   - intros ->; reflexivity.
   - pose proof (get_session_published st c m got k Hnb) as X. cbv zeta in X.
     rewrite publish_unfold, Hnb in X; cbn [snd] in X. rewrite X.
     destruct (get_session st k); [reflexivity|discriminate].
 Qed.
 
+(* a Publish that returns ErrQueueFull was refused by the pre-check and has changed nothing *)
+Lemma publish_refused st c m got :
+  wf st -> OwnOk st -> fst (publish st c m got) = RQueueFull ->
+  own_refused st c m = true /\ snd (publish st c m got) = st.
+Proof.
+  intros W O H. rewrite publish_unfold in *. unfold pub_stuck in *. destruct (own_refused st c m) eqn:R.
+  - cbn [orb snd]. split; reflexivity.
+  - rewrite (no_midway st c m W O R) in *. cbn [orb negb andb] in H. destruct (pub_blk st c m); discriminate.
+Qed.
+
 Theorem publish_targets_ok st c m got :
-  wf st ->
+  wf st -> OwnOk st ->
   let (r, st') := publish st c m got in
   targets_ok st (OPublish c m got) r st' = true.
 Proof.
-  intros W. destruct (publish st c m got) as [r st'] eqn:E. cbn [targets_ok].
+  intros W O. destruct (publish st c m got) as [r st'] eqn:E. cbn [targets_ok].
   destruct (name_ok (m_topic m)) eqn:Hn; [|reflexivity].
   assert (Est : st' = snd (publish st c m got)) by (rewrite E; reflexivity).
   rewrite publish_unfold in E.
-  rewrite !andb_true_iff. split; [split|].
-  - (* every existing session *)
-    apply forallb_forall. intros [k s] Hin. cbn [fst snd].
-    destruct (negb (pub_err st c m) && pub_blk st c m) eqn:Hnb.
-    + injection E as <- <-. rewrite (sessions_get st k s W Hin). apply target_same; exact I.
-    + rewrite Est, (get_session_published st c m got k Hnb), (sessions_get st k s W Hin). cbn [option_map].
-      injection E as <- _.
-      apply (target_deliver st c m got k s Hn). intros Herr.
-      rewrite Herr in Hnb. cbn [negb andb] in Hnb.
-      split; [exact (pub_err_false_session st c m k s Herr Hin)|exact (pub_blk_false_session st c m k s Hnb Hin)].
-  - (* no new session *)
-    apply forallb_forall. intros [k s'] Hin. cbn [fst].
-    apply get_sessions in Hin || idtac.
-    assert (G : get_session st' k = Some s' \/ True) by (right; exact I).
-    clear G. rewrite Est in Hin.
-    (* Hin : In (k, s') (sessions st') ; the keys of st' are those of st *)
-    rewrite publish_unfold in Hin.
-    destruct (negb (pub_err st c m) && pub_blk st c m) eqn:Hnb; cbn [snd] in Hin.
-    + rewrite (sessions_get st k s' W Hin); reflexivity.
-    + apply in_sessions in Hin as [[x [-> Hin]]|[x [-> Hin]]]; cbn [st_temps st_stored get_session] in *.
+  destruct (pub_stuck st c m) eqn:Hnb.
+  - (* refused or waiting: nothing has changed *)
+    injection E as <- <-. rewrite !andb_true_iff. split; [split|].
+    + apply forallb_forall. intros [k s] Hin. cbn [fst snd]. rewrite (sessions_get st k s W Hin).
+      apply target_same. destruct (own_refused st c m); exact I.
+    + apply forallb_forall. intros [k s] Hin. cbn [fst]. rewrite (sessions_get st k s W Hin). reflexivity.
+    + destruct (own_refused st c m) eqn:R.
+      * rewrite <- (own_refused_own_full st c m Hn). exact R.
+      * rewrite <- (pub_blk_other_full st c m Hn). unfold pub_stuck in Hnb. rewrite R, (no_midway st c m W O R) in Hnb. exact Hnb.
+  - unfold pub_stuck in Hnb. apply orb_false_iff in Hnb as [R Hb].
+    pose proof (no_midway st c m W O R) as Herr. rewrite Herr in *. cbn [negb andb] in Hb.
+    assert (Hnb : pub_stuck st c m = false) by (unfold pub_stuck; rewrite R, Herr, Hb; reflexivity).
+    injection E as <- _. rewrite !andb_true_iff. split; [split|].
+    + apply forallb_forall. intros [k s] Hin. cbn [fst snd].
+      rewrite Est, (get_session_published st c m got k Hnb), (sessions_get st k s W Hin), Herr. cbn [option_map].
+      apply (target_deliver st c m got k s Hn);
+        [exact (pub_err_false_session st c m k s Herr Hin)|exact (pub_blk_false_session st c m k s Hb Hin)].
+    + apply forallb_forall. intros [k s'] Hin. cbn [fst]. rewrite Est, publish_unfold, Hnb in Hin. cbn [snd] in Hin.
+      apply in_sessions in Hin as [[x [-> Hin]]|[x [-> Hin]]]; cbn [st_temps st_stored get_session] in *.
       * apply in_map_iff in Hin as [[x0 s0] [Ex Hin]]. cbn [fst snd] in Ex. injection Ex as -> _.
         destruct W as (Wt & _). rewrite (In_alookup N.eqb N.eqb_eq x s0 _ Wt Hin); reflexivity.
       * apply in_map_iff in Hin as [[x0 s0] [Ex Hin]]. cbn [fst snd] in Ex. injection Ex as -> _.
         destruct W as (_ & Ws & _). rewrite (In_alookup bytes_eqb bytes_eqb_eq x s0 _ Ws Hin); reflexivity.
-  - (* the result *)
-    rewrite <- (pub_err_own_full st c m Hn), <- (pub_blk_other_full st c m Hn).
-    destruct (pub_err st c m) eqn:Herr; cbn [negb andb] in E.
-    + injection E as <- _. reflexivity.
-    + destruct (pub_blk st c m) eqn:Hblk; injection E as <- _; reflexivity.
+    + rewrite <- (own_refused_own_full st c m Hn), <- (pub_blk_other_full st c m Hn), R, Hb. split; reflexivity.
 Qed.
